@@ -688,8 +688,9 @@ class _FnState(object):
                 e.slice.value, str):
             return AV('unk', b.ord, b.val, b.kord)
         # unknown container, non-constant index: permutation / mask /
-        # keyed lookup -- keep order labels on the result as order
-        return AV('unk', b.ord | i.ord, b.val | i.val)
+        # keyed lookup -- keep order labels on the result as order (and
+        # key-order labels as key order: the element may be a nested dict)
+        return AV('unk', b.ord | i.ord, b.val | i.val, b.kord)
 
     # -- calls -----------------------------------------------------------
     def _call(self, c, env):
@@ -1118,6 +1119,23 @@ class _FnState(object):
                     out[a.id] = AV(o.kind, o.ord, o.val | lo, o.kord,
                                    o.fields)
 
+    def _selects_loop_element(self, stmt, loop):
+        """stmt is `name = <loop variable>` (or an expression of it that is
+        not a measure being compared) under an `if` inside `loop`"""
+        if not (isinstance(stmt, ast.Assign) and isinstance(
+                stmt.value, ast.Name)):
+            return False
+        lvars = {x.id for x in ast.walk(loop.target)
+                 if isinstance(x, ast.Name)}
+        if stmt.value.id not in lvars:
+            return False
+        p = getattr(stmt, '_parent', None)
+        while p is not None and p is not loop:
+            if isinstance(p, ast.If):
+                return True
+            p = getattr(p, '_parent', None)
+        return False
+
     def _nested_seq(self, it_expr):
         """the iterated name has `name[i].append(...)` somewhere in this
         function: its elements are sequences"""
@@ -1164,6 +1182,10 @@ class _FnState(object):
             for lp in self.loop_labels.get(id(stmt), []):
                 lo = self.ev(lp.iter, env).iter_ord
                 if lo and _has_early_exit(lp):
+                    extra |= lo
+                elif lo and self._selects_loop_element(stmt, lp):
+                    # `if better(x): best = x` -- which element is kept
+                    # among equals depends on the visiting order
                     extra |= lo
             out[target.id] = AV(av.kind, av.ord, av.val | extra, av.kord,
                                 av.fields if not extra else None)
